@@ -530,6 +530,35 @@ class PrimaryOrSupplementaryVD:
 
         return (added_block, block, offset)
 
+    def remove_rr_ce_entry(self, block, offset, length):
+        # type: (rockridge.RockRidgeContinuationBlock, int, int) -> bool
+        """
+        Remove a Rock Ridge Continuation Entry from this PVD; see
+        track_rr_ce_entry() above for why we track these in the PVD.  If the
+        Continuation Block has no entries left afterwards, the block itself
+        is removed as well, since no Directory Record refers to it anymore
+        (and hence it would never be assigned an extent again).
+
+        Parameters:
+         block - The block that the Continuation Entry lives in.
+         offset - The offset within the block of the Continuation Entry.
+         length - The length of the Continuation Entry.
+        Returns:
+         True if the block was removed, False otherwise.
+        """
+        if not self._initialized:
+            raise pycdlibexception.PyCdlibInternalError('This Primary Volume Descriptor is not initialized')
+
+        removed_block = False
+        if block.remove_entry(offset, length):
+            for index, candidate in enumerate(self.rr_ce_blocks):
+                if candidate is block:
+                    del self.rr_ce_blocks[index]
+                    removed_block = True
+                    break
+
+        return removed_block
+
     def clear_rr_ce_entries(self):
         # type: () -> None
         """
